@@ -33,6 +33,9 @@ def main():
     dirs = []
     for a in sys.argv[1:]:
         dirs += sorted(glob.glob(os.path.join(a, "benign_out", "*", "")), key=lambda x: (len(x), x))
+    if not sys.argv[1:]:
+        # no argument: the collection kept under /verif/benign
+        dirs = sorted(glob.glob(os.path.join(HERE, "benign", "*", "")))
     dirs = [x for x in dirs if os.path.exists(os.path.join(x, "patch.diff"))]
     with cf.ProcessPoolExecutor(max_workers=16) as ex:
         res = list(ex.map(one, dirs))
